@@ -48,6 +48,11 @@ def k1_grids(rng, thorough):
             "buildMeshAxis": [[m, u, s] for m in ms for u in (1, 2, 3, 5) for s in (3, 5, 8, 11)]}
 
 
+def _cache_size(c):
+    """number of entries of the cache, whatever the attribute holding them is called"""
+    return max([len(v) for v in vars(c).values() if isinstance(v, dict)] or [0])
+
+
 def _replay_cache(n, schedule):
     import sched
     from acryo.alignment._base import TemplateMaskCache
@@ -73,7 +78,7 @@ def _replay_cache(n, schedule):
             outs.append("raised" if r[1] == "RuntimeError" else "err:" + r[1])
         else:
             outs.append("ret" if (r[1] is not None and r[1][0] is stored[0]) else ("none" if r[1] is None else "ret-other"))
-    return outs, len(c._dict), bp is not None
+    return outs, _cache_size(c), bp is not None
 
 
 def correspondence(rng, thorough):
@@ -147,8 +152,8 @@ def run_case(inp):
             schedule = [int(x) for x in r.integers(0, n, size=int(r.integers(10, 120)))]
             res, _ = sched.run_schedule([(lambda: c.get(Backend())) for _ in range(n)], [code], schedule, None)
             bad = [x for x in res if x is None or x[0] == "err" or x[1] is None or x[1][0] is not stored[0]]
-            if bad or len(c._dict) != 1:
-                V("cache-race", f"instruction-level schedule {schedule[:30]} with {n} threads: results {res}, cache size {len(c._dict)}")
+            if bad or _cache_size(c) != 1:
+                V("cache-race", f"instruction-level schedule {schedule[:30]} with {n} threads: results {res}, cache size {_cache_size(c)}")
                 break
         return viols
     if kind == "backend-context":
